@@ -157,12 +157,39 @@ def gen_env(rng, pf):
         "cash": rng.choice(pf.get("cash", [100.0, 1e5, 1e6])) if not any(c["kind"] == "future" for c in specs) else rng.choice([1e6, 1e7]),
         "space": space, "folds": folds, "markov": markov, "warmup_s": warm,
         "episode_length": None, "sampling_span": None,
+        "spread": spread,
         "ts_type": rng.choice(pf.get("ts_types", ["datetime", "datetime", "datetime", "timestamp", "timestamp", "mixed_grid_ts", "mixed_events_ts"])),
         "state": {"type": "rec", "feature": rng.random() < 0.7, "k": rng.randint(1, 4)},
     }
     if pf.get("p_custom_frame") and rng.random() < pf["p_custom_frame"]:
         route_custom_via_frame(rng, env)
+    if pf.get("p_prices_table") and rng.random() < pf["p_prices_table"]:
+        route_quotes_via_add_prices(rng, env, spread, share=rng.choice([1.0, 1.0, 0.6]))
     return env
+
+
+def route_quotes_via_add_prices(rng, env, spread, share=1.0):
+    """Quotes (and reference-rate quotes) are handed to the transmitter as one table of mid prices with
+    Transmitter.add_prices(table, spread): index = time, one column per contract. Bid and ask of the routed
+    events are set to exactly what that loader computes from the mid price (price -/+ price*spread/2)."""
+    n = 0
+    for es in env["events"]:
+        if es.get("late") or es.get("via_frame"):
+            continue
+        if es["type"] == "nbbo" and isinstance(es["c"], int) and es["bid"] == es["bid"] and es["ask"] == es["ask"] and rng.random() < share:
+            price = (es["bid"] + es["ask"]) / 2
+            c = es["c"]
+        elif es["type"] == "rate" and rng.random() < share:
+            price = es["r"]
+            c = "rate"
+        else:
+            continue
+        half = price * spread / 2
+        es.update({"type": "nbbo" if c != "rate" else "rate", "c": c, "price": price, "bid": price - half, "ask": price + half, "via_prices": True})
+        n += 1
+    if n:
+        env["prices_spread"] = spread
+    return n
 
 
 def route_custom_via_frame(rng, env):
